@@ -127,3 +127,31 @@ def own_namespace_lookups(ctx, rep: Report, rule: str):
                                       f"{fi.module.relpath}:{node.lineno}", short))
     if n < 6:
         raise AnalysisError(f"{rule}: only {n} own-namespace lookups on classes found (floor 6)")
+
+
+def mutable_defaults(ctx, rep: Report, rule: str, module_prefixes=None):
+    """No function of the package has a mutable object (list / dict / set display or constructor call) as a parameter
+    default: it is created once and shared by every call, so state written into it (a visited set, an accumulator)
+    leaks from one operation - and one instance - into the next."""
+    rep.rules[rule] = "no mutable parameter defaults (state shared across calls)"
+    n = 0
+    for fi in ctx.p.iter_functions():
+        if fi.is_lambda or not fi.module.name.startswith(ctx.p.package):
+            continue
+        if module_prefixes and not any(fi.module.name == m or fi.module.name.startswith(m + ".") for m in module_prefixes):
+            continue
+        a = fi.node.args
+        short = fi.qualname.split(":")[-1].split("#")[0]
+        pos = a.posonlyargs + a.args
+        pairs = list(zip(pos[len(pos) - len(a.defaults):], a.defaults)) + [(p_, d) for p_, d in zip(a.kwonlyargs, a.kw_defaults) if d is not None]
+        for p_, d in pairs:
+            n += 1
+            mutable = isinstance(d, (ast.List, ast.Dict, ast.Set, ast.ListComp, ast.DictComp, ast.SetComp)) or \
+                (isinstance(d, ast.Call) and isinstance(d.func, ast.Name) and d.func.id in ("list", "dict", "set", "defaultdict", "OrderedDict", "deque"))
+            if mutable:
+                rep.oblige(rule, f"{short}:{p_.arg}", False)
+                rep.violate(Violation(rule, f"{rule}|{short}|{p_.arg}", f"{short}: parameter `{p_.arg}` defaults to the mutable object `{ast.unparse(d)}`, created once and shared by all calls: what one call records in it is still there for the next",
+                                      f"{fi.module.relpath}:{fi.node.lineno}", short))
+    rep.oblige(rule, f"{n} parameter defaults inspected", True)
+    if n < 20:
+        raise AnalysisError(f"{rule}: only {n} parameter defaults found (floor 20)")
